@@ -153,6 +153,10 @@ def gen_scripts(prop, tier, rng):
         for _ in range(max(2, n // 12)):
             for kind in gen.KINDS:
                 S.append(gen.long_history(rng, kind))
+        # awkward ratios and chunk sizes
+        for _ in range(max(2, n // 6)):
+            for kind in gen.ASYNC:
+                S.append(gen.awkward_history(rng, kind))
         if prop == "C04":
             # input_buffer_allocate / output_buffer_allocate at arbitrary history points
             for ops in S:
@@ -169,6 +173,9 @@ def gen_scripts(prop, tier, rng):
         for _ in range(n):
             for kind in gen.ASYNC:
                 S.append(gen.superseded_history(rng, kind))
+        for _ in range(max(2, n // 6)):
+            for kind in gen.ASYNC:
+                S.append(gen.awkward_history(rng, kind))
         for _ in range(2 * n):
             for kind in gen.ASYNC:
                 S.append(gen.valid_history(rng, kind, 30, allow=("ratio", "ramp", "chunk", "reset"), T=64))
